@@ -23,6 +23,18 @@ CHECKS = {
              "after noreply, never blocks on a reply that will not come).",
         technique="TLA+ contract monitor (ConnRule.tla) evaluated by TLC over recorded executions (trace validation); exhaustive single-fault enumeration",
         design_ref="4 C01", note=CONN_NOTE),
+    "C02": dict(
+        category="model_checking",
+        text="Every key-taking operation x key corpus (legal keys at the 250-byte boundary with and without prefix; illegal classes incl. empty, "
+             "whitespace-only, embedded CR LF + command injection, NUL, control bytes, over-long, non-ASCII) x multi-key batches with an illegal key "
+             "first/middle/last x values containing protocol text x integer arguments over the protocol's ranges (expiry +-2^63, flags 2^32-1, "
+             "cas/delta 2^64-1) and non-integers x noreply / default_noreply x prefix x unicode x encoding x Client/PooledClient/HashClient, plus "
+             "seeded random combinations. The bytes given to sendall() are parsed by an independent strict parser (lib/wire.py) and TLC decides "
+             "each call with spec/WireRule.tla over spec/KeyRule.tla: input error before a single byte is written, or exactly the intended "
+             "command records (verb, prefixed key computed in TLA+, flags, expiry, length, data descriptor, cas, delta, effective noreply) and "
+             "nothing left over.",
+        technique="TLA+ contract (WireRule.tla: Intended commands, key legality) evaluated by TLC over recorded calls; independent strict wire parser",
+        design_ref="4 C02", note=TRUST + " Data blocks are compared through (length, sha256) descriptors; numbers as decimal text (TLC integers are 32-bit)."),
     "C05": dict(
         category="model_checking",
         text="TLC explores the abstract cache (spec/Cache.tla over spec/CacheRule.tla: map with expiry classes and cas versions, the "
